@@ -89,6 +89,22 @@ Proof.
 Qed.
 Print Assumptions C04_builtin_json_value.
 
+(* ... and so for ANY spelling of j (raw non-ASCII characters in strings, other escapes, -0 ...), with UTF-8 payloads *)
+Theorem C04_builtin_json_spelled : forall e c h cr t b j T,
+  (is_bmc cr && (h_comp h =? 8192)) = true -> h_sub h = UserDataFormat_json ->
+  Utf8.utf8_encode t = Some b -> strip_ws t = t -> rstrip_nul t = t ->
+  tokens t = Some T -> spells j T -> keys_ok j -> (jdepth j <= depth_limit)%nat ->
+  render_ud e c h cr b =
+    Some (match j with
+          | JObj l => obj_update (base_fields e h cr (L "Created by")) l
+          | _ => obj_set (base_fields e h cr (L "Created by")) (L "Data") j
+          end).
+Proof.
+  intros e c h cr t b j T Hb Hs He Hw Hn Ht Hsp Hk Hd. rewrite (builtin_json_utf8 e c h cr t b Hb Hs He Hw Hn).
+  rewrite (loads_spelling t j T Ht Hsp Hk Hd). destruct j; reflexivity.
+Qed.
+Print Assumptions C04_builtin_json_spelled.
+
 (* the two printers of the json module produce such texts: json.dumps(j) and json.dumps(j, indent=4) *)
 Theorem C04_json_texts : forall j, has_float j = false ->
   tokens (render j) = Some (toks j) /\ tokens (dumps4 0 j) = Some (toks j).
